@@ -130,7 +130,16 @@ def gen_op(R: Draw, g: DocGen, lib: Any, doc_node: Any, kinds: list[str] | None 
         a, b = _landmark_range(R, doc_node, n) if use and R.bool(0.45) else _positions(R, n)
         if R.bool(0.5):
             b = a
-        return {"op": kind, "from": a, "to": b, "node": _node_content(R, g)[0]}
+        node = _node_content(R, g)[0]
+        if use and R.bool(0.3):
+            # an insertion point search: a cursor at the start / end of a textblock (or in an empty one) and a block
+            # node of a type that some ancestor - not necessarily the nearest - accepts
+            ends = [q for pos, nd in _node_positions(doc_node) if nd.is_textblock for q in (pos + 1, pos + nd.node_size - 1)]
+            anc = sorted({nd.type.name for _, nd in _node_positions(doc_node) if not nd.is_inline and not nd.is_text})
+            if ends and anc:
+                a = b = R.choice(ends)
+                node = g.node(R, R.choice(anc), 1, 4)
+        return {"op": kind, "from": a, "to": b, "node": node}
     if kind in ("add_mark", "remove_mark"):
         a, b = _positions(R, n, 16)
         if use:
